@@ -397,7 +397,11 @@ pub fn transcript<VS: HSet>(run: &Run<VS>) -> (String, String) {
                     ),
                 });
             }
-            Ev::Snap(s) => out.push(format!("snap {}", s)),
+            Ev::Snap(s) => {
+                if !s.starts_with("terminal;") {
+                    out.push(format!("snap {}", s))
+                }
+            }
         }
     }
     if let Outcome::Solution(_) = run.outcome {
@@ -526,6 +530,72 @@ pub fn parse_store<VS: HSet>(snap: &str) -> Option<Vec<StoreEntry<VS>>> {
     Some(out)
 }
 
+/// structure of the expected tree, rebuilt from the store: derived nodes with their terms and the
+/// shared id (= arena id) exactly when the node has in-degree >= 2 among the nodes reachable from the
+/// terminal incompatibility; leaves by kind and package
+pub fn expected_shape<VS: HSet>(entries: &[StoreEntry<VS>], terminal: usize) -> String {
+    let causes = |id: usize| -> Option<(usize, usize)> {
+        let k = &entries.get(id)?.kind;
+        let inner = k.strip_prefix("derived(")?.strip_suffix(')')?;
+        let (a, b) = inner.split_once(' ')?;
+        Some((a.parse().ok()?, b.parse().ok()?))
+    };
+    let mut indeg: BTreeMap<usize, usize> = BTreeMap::new();
+    let mut seen: BTreeSet<usize> = BTreeSet::new();
+    let mut stack = vec![terminal];
+    seen.insert(terminal);
+    while let Some(i) = stack.pop() {
+        if let Some((a, b)) = causes(i) {
+            for c in [a, b] {
+                *indeg.entry(c).or_insert(0) += 1;
+                if seen.insert(c) {
+                    stack.push(c);
+                }
+            }
+        }
+    }
+    fn go<VS: HSet>(entries: &[StoreEntry<VS>], id: usize, indeg: &BTreeMap<usize, usize>, causes: &dyn Fn(usize) -> Option<(usize, usize)>) -> String {
+        let e = &entries[id];
+        match causes(id) {
+            Some((a, b)) => {
+                let mut terms: Vec<String> = e.terms.iter().map(|(p, t)| format!("{}{}", p, crate::treeck::term_m(t))).collect();
+                terms.sort();
+                let sid = if indeg.get(&id).copied().unwrap_or(0) >= 2 { id.to_string() } else { "-".into() };
+                format!("D[{}][{}]({})({})", sid, terms.join(","), go(entries, a, indeg, causes), go(entries, b, indeg, causes))
+            }
+            None => {
+                let tag = if e.kind.starts_with("notroot") { "N" } else if e.kind.starts_with("novers") { "V" } else if e.kind.starts_with("dep") { "F" } else { "C" };
+                let inner = e.kind.split_once('(').map(|x| x.1).unwrap_or("");
+                let p = inner.split(' ').next().unwrap_or("");
+                format!("{}@{}", tag, p)
+            }
+        }
+    }
+    go(entries, terminal, &indeg, &causes)
+}
+
+pub fn actual_shape<VS: HSet>(t: &DerivationTree<String, VS, String>) -> String {
+    match t {
+        DerivationTree::External(e) => match e {
+            External::NotRoot(p, _) => format!("N@{}", p),
+            External::NoVersions(p, _) => format!("V@{}", p),
+            External::FromDependencyOf(p, ..) => format!("F@{}", p),
+            External::Custom(p, ..) => format!("C@{}", p),
+        },
+        DerivationTree::Derived(d) => {
+            let mut terms: Vec<String> = d.terms.iter().map(|(p, t)| format!("{}{}", p, crate::treeck::term_m(t))).collect();
+            terms.sort();
+            format!(
+                "D[{}][{}]({})({})",
+                d.shared_id.map(|i| i.to_string()).unwrap_or("-".into()),
+                terms.join(","),
+                actual_shape(&d.cause1),
+                actual_shape(&d.cause2)
+            )
+        }
+    }
+}
+
 // ------------------------------------------------------------------ the request
 
 pub struct SolveReq<VS: HSet> {
@@ -593,6 +663,7 @@ pub fn eval_solve<VS: HSet>(r: &SolveReq<VS>) -> SolveEval<VS> {
     let mut prev: Option<&Ev> = None;
     let mut n_backtracks = 0;
     let mut store_snap: Option<String> = None;
+    let mut terminal_id: Option<usize> = None;
     for ev in &run.events {
         match ev {
             Ev::Cancel { .. } => cancels_since_choose += 1,
@@ -683,6 +754,8 @@ pub fn eval_solve<VS: HSet>(r: &SolveReq<VS>) -> SolveEval<VS> {
                     last_snap_ps = Some(s.clone());
                 } else if s.starts_with("store") {
                     store_snap = Some(s.clone());
+                } else if let Some(t) = s.strip_prefix("terminal;") {
+                    terminal_id = t.parse().ok();
                 }
             }
         }
@@ -725,10 +798,44 @@ pub fn eval_solve<VS: HSet>(r: &SolveReq<VS>) -> SolveEval<VS> {
                 }
             }
         }
-        Outcome::NoSolution(_) => {
+        Outcome::NoSolution(tree) => {
             tags.push("outcome_nosolution");
             if let Some(s) = solutions.first() {
                 failures.push(("C02", format!("NoSolution reported but {:?} is a solution", s)));
+            }
+            // C03: the tree is a checkable proof (independent semantic check against the registry)
+            for e in crate::treeck::check_tree(&r.reg, &r.root, r.rv, tree, false) {
+                failures.push(("C03", e));
+            }
+            // C03: shared ids, by independent reconstruction from the store snapshot
+            if let (Some(snap), Some(tid)) = (&store_snap, terminal_id) {
+                match parse_store::<VS>(snap) {
+                    None => failures.push(("C03", "store snapshot not parseable".into())),
+                    Some(entries) => {
+                        let want = expected_shape(&entries, tid);
+                        let got = actual_shape(tree);
+                        if want != got {
+                            failures.push(("C03", format!("tree shape / shared ids differ from the cause DAG of the store: expected {} got {}", want, got)));
+                        }
+                        if want.contains("D[") && want.matches("D[").count() > want.matches("D[-]").count() {
+                            tags.push("tree_has_shared_node");
+                        }
+                    }
+                }
+            } else {
+                failures.push(("C03", "no store snapshot / terminal id emitted for a NoSolution run".into()));
+            }
+            let mut nodes = vec![];
+            crate::treeck::derived_nodes(tree, &mut nodes);
+            let mut by_id: BTreeMap<usize, &String> = BTreeMap::new();
+            for (sid, canon) in &nodes {
+                if let Some(id) = sid {
+                    if let Some(prev) = by_id.insert(*id, canon) {
+                        if prev != canon {
+                            failures.push(("C03", format!("two different subtrees carry the shared id {}", id)));
+                        }
+                    }
+                }
             }
         }
         Outcome::Panic(m) => {
